@@ -23,7 +23,7 @@ import (
 )
 
 var families = []string{"steady", "reset-after-k", "neverack-restart", "refuse-then-recover", "late-ack", "stop-with-pending-acks",
-	"stop-mid-chunk", "restarts-in-a-row", "wrong-id", "two-outputs-one-faulty", "overflow", "session-renewal", "label-tuples"}
+	"stop-mid-chunk", "restarts-in-a-row", "wrong-id", "two-outputs-one-faulty", "overflow", "session-renewal", "label-tuples", "interrupted-recovery"}
 
 func buildScenarios(c *vkit.Ctx) []e2e.Scenario {
 	var out []e2e.Scenario
